@@ -13,7 +13,7 @@ import ast
 import re
 
 from ..core.tree import AnalysisError
-from ..core.astutil import walk_no_nested, call_name, short, src, closure_nodes, resolve_local
+from ..core.astutil import walk_no_nested, call_name, short, src, closure_nodes, resolve_local, resolve_callee, closure
 from ..engines import structural as S
 from ..engines.typestate import span_table, check_flat, check_alternation
 from . import c11_tables
@@ -50,19 +50,8 @@ def spans(ctx, report):
 
 
 def webvtt_nesting(ctx, report):
-    fn = ctx.index.get_function(VTT, "WebVTTWriter._group_cues_by_layout")
-    report.covered(fn)
-    lists = [n for n in walk_no_nested(fn.node) if isinstance(n, ast.Assign) and src(n.targets[0]) == "styles"
-             and isinstance(n.value, ast.List)]
-    rev = [n for n in walk_no_nested(fn.node) if isinstance(n, ast.If) and src(n.test) == "not node.start"
-           and any(src(s) == "styles.reverse()" for s in n.body)]
-    ok = len(lists) == 1 and len(rev) == 1 and rev[0].lineno > lists[0].lineno
-    loop = [n for n in walk_no_nested(fn.node) if isinstance(n, ast.For) and src(n.iter) == "styles"]
-    ok2 = len(loop) == 1 and bool(rev) and loop[0].lineno > rev[0].lineno
-    body = src(loop[0]) if loop else ""
-    ok3 = "if node.start:" in body and "s += tags[0]" in body and "s += tags[1]" in body
-    report.check(ok and ok2 and ok3, "R-ORDER", fn, "inline tags are closed in the reverse of the order they are opened in",
-                 {"style_order": src(lists[0].value) if lists else None, "reversed_on_close": bool(rev)}, "3")
+    from . import webvtt_cues
+    webvtt_cues.nesting(ctx, report, "3")
     cv = ctx.index.get_function(VTT, "WebVTTWriter._convert_caption")
     report.covered(cv)
     cue_level_nesting(ctx, report, cv)
@@ -79,10 +68,12 @@ def cue_level_nesting(ctx, report, cv):
     pair, the opening is appended to one accumulator and the closing is PREPENDED to another;
     the cue text is emitted between the two accumulators."""
     owner = pair = None
+    g = ctx.index.get_function(VTT, "WebVTTWriter._group_cues_by_layout")
+    inline_scope = {f.key for f in closure(ctx.index, g)}
     for f2, n in closure_nodes(ctx.index, cv, (ast.Assign,)):
         if isinstance(n.value, ast.Call) and (call_name(n.value) or "").endswith("_convert_style_to_text_tag") \
                 and len(n.targets) == 1 and isinstance(n.targets[0], ast.Name) \
-                and f2.name != "_group_cues_by_layout":      # the inline level is judged above
+                and f2.key not in inline_scope:      # the inline level is judged above
             if owner is not None:
                 raise AnalysisError("WebVTT cue-level tags: more than one routine builds cue-level tags")
             owner, pair = f2, n.targets[0].id
@@ -159,6 +150,13 @@ def scc_pipeline(ctx, report):
                 off = any(k.arg == "turn_on" and isinstance(k.value, ast.Constant) and k.value.value is False for k in c.keywords)
                 if not off:
                     creators.add(name)
+            elif isinstance(c, ast.Call):
+                h = resolve_callee(ctx.index, f, c)
+                if h is not None and h is not f and any(
+                        isinstance(x, ast.Call) and (call_name(x) or "").endswith("create_italics_style") and not any(
+                            k.arg == "turn_on" and isinstance(k.value, ast.Constant) and k.value.value is False
+                            for k in x.keywords) for x in walk_no_nested(h.node)):
+                    creators.add(name)
     if "_ensure_final_italics_node_closes" not in order:
         report.violation("R-ORDER", fi, "the closing pass is part of the pipeline", {"passes": order}, "4")
         return
@@ -172,12 +170,26 @@ def scc_pipeline(ctx, report):
           and "italics_on" in src(n.test)]
     if len(br) != 1:
         raise AnalysisError("_close_italics_before_repositioning: repositioning branch not found")
+    def italics_kind(fn_, c):
+        """'ON' / 'OFF' when the call creates an italics node (directly, or through a module helper
+        whose only creation is of that kind), else None"""
+        if not isinstance(c, ast.Call):
+            return None
+        if (call_name(c) or "").endswith("create_italics_style"):
+            off = any(k.arg == "turn_on" and isinstance(k.value, ast.Constant) and k.value.value is False for k in c.keywords)
+            return "OFF" if off else "ON"
+        h = resolve_callee(ctx.index, fn_, c)
+        if h is not None and h is not fn_:
+            inner = {italics_kind(h, x) for x in walk_no_nested(h.node) if isinstance(x, ast.Call)} - {None}
+            if len(inner) == 1:
+                return inner.pop()
+        return None
     kinds = []
     for st in br[0].body:
         for c in walk_no_nested(st):
-            if isinstance(c, ast.Call) and (call_name(c) or "").endswith("create_italics_style"):
-                off = any(k.arg == "turn_on" and isinstance(k.value, ast.Constant) and k.value.value is False for k in c.keywords)
-                kinds.append("OFF" if off else "ON")
+            k_ = italics_kind(rp, c)
+            if k_:
+                kinds.append(k_)
             if isinstance(c, ast.Assign) and src(c.targets[0]) == "italics_on":
                 kinds.append(f"SET {src(c.value)}")
     sets = [k for k in kinds if k.startswith("SET")]
@@ -188,7 +200,8 @@ def scc_pipeline(ctx, report):
                                                              "repositioning in the same italic run unwrapped"}, "4")
     ef = ctx.index.get_function(SPC, "_ensure_final_italics_node_closes")
     t = src(ef.node)
-    ok = "if italics_on:" in t and "turn_on=False" in t and "new_collection.append(" in t
+    closes = any(italics_kind(ef, c) == "OFF" for c in walk_no_nested(ef.node))
+    ok = "if italics_on:" in t and closes and "new_collection.append(" in t
     report.check(ok, "R-MUSTCALL", ef, "an italics span still open at the end is closed", None, "4")
 
 
